@@ -7,10 +7,10 @@ struct W { int code; unsigned w; };
 const W BASE[] = {{OP_NEW_INT, 5}, {OP_NEW_FLOAT, 2}, {OP_NEW_CTRL, 2}, {OP_NEW_BSTR, 3}, {OP_NEW_TSTR, 3}, {OP_NEW_INDEF_BSTR, 2}, {OP_NEW_INDEF_TSTR, 2}, {OP_NEW_DEF_ARRAY, 4}, {OP_NEW_INDEF_ARRAY, 4},
                   {OP_NEW_DEF_MAP, 3}, {OP_NEW_INDEF_MAP, 3}, {OP_NEW_TAG, 2}, {OP_BUILD_TAG, 3}, {OP_PUSH, 10}, {OP_PUSH_MANY, 1}, {OP_SET, 3}, {OP_REPLACE, 6}, {OP_GET, 6}, {OP_MAP_ADD, 6}, {OP_ADD_CHUNK, 4},
                   {OP_TAG_SET, 3}, {OP_TAG_ITEM, 3}, {OP_COPY, 4}, {OP_LOAD, 2}, {OP_LOAD_RAW, 3}, {OP_SERIALIZE_ALLOC, 2}, {OP_SERIALIZE, 1}, {OP_SIZE, 1}, {OP_DESCRIBE, 1}, {OP_INCREF, 5}, {OP_DECREF, 11},
-                  {OP_INTERMEDIATE_DECREF, 2}, {OP_SETVAL, 2}, {OP_MARK, 1}, {OP_GETTERS, 2}};
+                  {OP_INTERMEDIATE_DECREF, 2}, {OP_SETVAL, 2}, {OP_MARK, 1}, {OP_GETTERS, 2}, {OP_RESET_HANDLE, 2}};
 const W SER[] = {{OP_NEW_INT, 8}, {OP_NEW_FLOAT, 6}, {OP_NEW_CTRL, 3}, {OP_NEW_BSTR, 6}, {OP_NEW_TSTR, 6}, {OP_NEW_INDEF_BSTR, 3}, {OP_NEW_INDEF_TSTR, 3}, {OP_NEW_DEF_ARRAY, 5}, {OP_NEW_INDEF_ARRAY, 5},
                  {OP_NEW_DEF_MAP, 4}, {OP_NEW_INDEF_MAP, 4}, {OP_NEW_TAG, 2}, {OP_BUILD_TAG, 4}, {OP_PUSH, 10}, {OP_PUSH_MANY, 2}, {OP_SET, 2}, {OP_REPLACE, 3}, {OP_GET, 1}, {OP_MAP_ADD, 7}, {OP_ADD_CHUNK, 6},
-                 {OP_TAG_SET, 2}, {OP_COPY, 2}, {OP_LOAD, 6}, {OP_LOAD_RAW, 3}, {OP_SERIALIZE_ALLOC, 6}, {OP_SERIALIZE, 6}, {OP_SIZE, 3}, {OP_DECREF, 3}, {OP_SETVAL, 5}, {OP_MARK, 2}, {OP_GETTERS, 3}};
+                 {OP_TAG_SET, 2}, {OP_COPY, 2}, {OP_LOAD, 6}, {OP_LOAD_RAW, 3}, {OP_SERIALIZE_ALLOC, 6}, {OP_SERIALIZE, 6}, {OP_SIZE, 3}, {OP_DECREF, 3}, {OP_SETVAL, 5}, {OP_MARK, 2}, {OP_GETTERS, 3}, {OP_RESET_HANDLE, 2}};
 const W COPYP[] = {{OP_NEW_INT, 4}, {OP_NEW_FLOAT, 2}, {OP_NEW_CTRL, 1}, {OP_NEW_BSTR, 3}, {OP_NEW_TSTR, 3}, {OP_NEW_INDEF_BSTR, 2}, {OP_NEW_INDEF_TSTR, 2}, {OP_NEW_DEF_ARRAY, 4}, {OP_NEW_INDEF_ARRAY, 4},
                    {OP_NEW_DEF_MAP, 3}, {OP_NEW_INDEF_MAP, 3}, {OP_NEW_TAG, 1}, {OP_BUILD_TAG, 3}, {OP_PUSH, 10}, {OP_SET, 2}, {OP_REPLACE, 5}, {OP_GET, 5}, {OP_MAP_ADD, 6}, {OP_ADD_CHUNK, 4}, {OP_TAG_SET, 2}, {OP_TAG_ITEM, 2},
                    {OP_COPY, 14}, {OP_SERIALIZE_ALLOC, 2}, {OP_INCREF, 2}, {OP_DECREF, 10}, {OP_INTERMEDIATE_DECREF, 1}, {OP_SETVAL, 5}, {OP_MARK, 2}, {OP_GETTERS, 3}, {OP_LOAD_RAW, 2}};
@@ -41,6 +41,7 @@ void gen_hist_ops(Rng& g, Rng& fr, const std::string& prop, unsigned nops, bool 
       if (code == OP_MAP_ADD && n_map == 0) continue;
       if (code == OP_ADD_CHUNK && (n_istr == 0 || n_dstr == 0)) continue;
       if ((code == OP_TAG_SET || code == OP_TAG_ITEM) && n_tag == 0) continue;
+      if (code == OP_RESET_HANDLE && n_dstr == 0) continue;
       if (code == OP_DECREF && n_pool <= 1 && i + 1 < nops && tries < 10) continue;
       break;
     }
@@ -59,6 +60,7 @@ void gen_hist_ops(Rng& g, Rng& fr, const std::string& prop, unsigned nops, bool 
       case OP_NEW_TAG: case OP_BUILD_TAG: o.c = gen_u64(g); n_tag++; break;
       case OP_PUSH_MANY: { static const uint64_t C[] = {3, 8, 22, 23, 24, 25, 64, 254, 255, 256, 257, 1000, 3000}; o.c = (prop == "C03" && g.chance(1, 6)) ? g.range(65534, 65537) : C[g.below(sizeof C / sizeof C[0])]; if (nops > 40 && o.c > 300) o.c = 300; o.c -= 1; break; }
       case OP_SET: case OP_REPLACE: case OP_GET: o.c = g.below(64); break;
+      case OP_RESET_HANDLE: o.c = g.below(400); break;
       case OP_MAP_ADD: case OP_ADD_CHUNK: if ((prop == "C12" || prop == "C03") && nops <= 40 && g.chance(1, 12)) { static const uint64_t C[] = {3, 22, 23, 24, 30, 129, 130, 254, 255, 256, 300, 1000, 3000}; o.d |= (C[g.below(13)] - 1) << 4; } break;
       case OP_SETVAL: { if (g.chance(1, 2)) o.c = gen_u64(g); else { GenProfile gp; MV t; do { Rng r2(g.next(), "f"); t = gen_mv(r2, gp, 99); } while (t.kind != MK_FLOAT); o.c = t.val; } break; }
       case OP_LOAD_RAW: o.c = g.next(); if ((prop == "C13" || prop == "C03" || prop == "C04") && g.chance(1, 2)) { o.d |= 8; deep_follow = 3; } else o.d &= ~8ull; break;
